@@ -13,6 +13,7 @@ import NodisVerif.Proofs.FloatDecTrip
 import NodisVerif.Proofs.FloatDecInt
 import NodisVerif.Proofs.FloatDecLen
 import NodisVerif.Proofs.FloatDecMono2
+import NodisVerif.Proofs.FloatDecNear
 /-
   C04 — sorted sets stay ordered by (score, member); rank, range and score agree.
 
@@ -611,9 +612,34 @@ theorem roundRat_neg_le_pos (num1 den1 num2 den2 : Nat) (hd1 : 0 < den1) (hd2 : 
     F64.key (roundRat true num1 den1) ≤ F64.key (roundRat false num2 den2) :=
   Proofs.FloatDecMono.roundRat_neg_le_pos num1 den1 num2 den2 hd1 hd2
 
-/- NOT PROVED: that the rounding is to the NEAREST double (only faithful + monotone + exact on representable values; the
-   table ties nearest-even to Go on exact halfway texts); monotonicity stated on TEXT (it is stated on the value mant × 10^ex
-   that `parseDec` extracts from the text); 17-digit sufficiency (above); that `formatShortest` is the *shortest* and *closest* round-tripping text. -/
+/-- CORRECTLY ROUNDED (nearest, ties to even): the result of `roundRat` on num/den > 0, read as a significand q at
+    exponent g — its bit pattern is min(+Inf, (g + 1074)·2^52 + q), with 2^52 ≤ q ≤ 2^53 unless g = −1074 (subnormal), so g is
+    the exponent of the last place in num/den's own binade — satisfies |num/den − q·2^g| ≤ 2^g / 2 (both inequalities, cross-
+    multiplied: 2^g is 2^g.toNat / 2^(−g).toNat), and on an exact tie q is even. Negative values: `roundRat true` only sets the
+    sign bit. Together with `roundRat_mono` and `roundRat_exact` this is IEEE-754 round-to-nearest-even. -/
+theorem roundRat_nearest (num den : Nat) (hnum : 0 < num) (hden : 0 < den) :
+    ∃ (q : Nat) (g : Int),
+      ((roundRat false num den).toNat : Int) = min (2047 * 2 ^ 52) ((g + 1074) * 2 ^ 52 + q) ∧
+      -1074 ≤ g ∧ q ≤ 2 ^ 53 ∧ (-1074 < g → 2 ^ 52 ≤ q) ∧
+      2 * q * 2 ^ g.toNat * den ≤ 2 * num * 2 ^ (-g).toNat + 2 ^ g.toNat * den ∧
+      2 * num * 2 ^ (-g).toNat ≤ 2 * q * 2 ^ g.toNat * den + 2 ^ g.toNat * den ∧
+      ((2 * q * 2 ^ g.toNat * den = 2 * num * 2 ^ (-g).toNat + 2 ^ g.toNat * den ∨
+        2 * num * 2 ^ (-g).toNat = 2 * q * 2 ^ g.toNat * den + 2 ^ g.toNat * den) → q % 2 = 0) :=
+  Proofs.FloatDecMono.roundRat_nearest num den hnum hden
+
+/-- the sign only sets the top bit -/
+theorem roundRat_sign (num den : Nat) : roundRat true num den = roundRat false num den ||| 0x8000000000000000 :=
+  Proofs.FloatDecMono.roundRat_neg num den
+
+/-- 1/10: q = 0x1999999999999A (rounded up from …99.6), g = −56: the double 0x3FB999999999999A -/
+example : roundRat false 1 10 = 0x3FB999999999999A ∧
+    ((0x3FB999999999999A : F64).toNat : Int) = min (2047 * 2 ^ 52) (((-56 : Int) + 1074) * 2 ^ 52 + (0x1999999999999A : Nat)) := by
+  decide +kernel
+
+/- NOT PROVED: monotonicity / nearest stated on TEXT (they are stated on the value mant × 10^ex that `parseDec` extracts from
+   the text); 17-digit sufficiency (above); that `formatShortest` is the *shortest* and *closest* round-tripping text; that the
+   result is the nearest among ALL doubles when it is a power of two reached from below is implied (the half unit is that of
+   num/den's binade, the finer one). Nothing about hexadecimal float text. -/
 
 end floattext
 
